@@ -136,8 +136,8 @@ bool HamiltonianPart::reduce(RealType ActualCutoff)
     std::cout << "Left " << counter << " eigenvalues : " << std::endl;
     if (counter)
 	{std::cout << Eigenvalues.head(counter) << std::endl << "_________" << std::endl;
-	Eigenvalues = Eigenvalues.head(counter);
-	H = H.topLeftCorner(counter,counter);
+	Eigenvalues = Eigenvalues.head(counter).eval();
+	H = H.topLeftCorner(counter,counter).eval();
 	return true;
     }
     else return false;
